@@ -216,6 +216,20 @@ func (n *Normalizer) block(b *Block, e *env) Term {
 	return n.stmts(b.Stmts, b.Ret, e, b)
 }
 
+// inlinedCall: t is a full application of a function on the inline list.
+func (n *Normalizer) inlinedCall(t Term) bool {
+	app, ok := t.(*App)
+	if !ok {
+		return false
+	}
+	fr, ok := app.Fun.(*FuncRef)
+	if !ok {
+		return false
+	}
+	callee, ok := n.Inline[fr.Key]
+	return ok && len(app.Args) == len(callee.Params) && !app.Spread
+}
+
 func mkSeq(effs []Term, ret Term) Term {
 	if len(effs) == 0 && ret != nil {
 		return ret
@@ -289,7 +303,13 @@ func (n *Normalizer) stmts(ss []Stmt, ret Term, e *env, blk *Block) Term {
 				m.Default = cont(sm.Default)
 				return mkSeq(effs, m)
 			}
-			effs = append(effs, n.term(x.X, e))
+			t := n.term(x.X, e)
+			// a unit-returning helper that was inlined here: its effects are spliced into this sequence
+			if sq, ok := t.(*Seq); ok && sq.Ret == nil && n.inlinedCall(x.X) {
+				effs = append(effs, sq.Effs...)
+				continue
+			}
+			effs = append(effs, t)
 		case *Defer:
 			effs = append(effs, &App{Fun: &Builtin{Name: "defer"}, Args: []Term{n.term(x.X, e)}})
 		case *IfStmt:
